@@ -58,7 +58,7 @@ def _trace_conformance(ctx, tier, seed):
             recs.append({"id": len(recs) + 1, "world": scn["world"], "roots": scn["roots"], "min": scn["min"], "max": scn["max"],
                          "dfs": run["tag"] == "dfs", "limit": 0, "snapshot": snap, "rootino": str(os.stat(w.paths[0]).st_ino),
                          "events": [{"ev": e["ev"], "ino": e.get("ino", ""), "reported": e.get("reported", False),
-                                     "descend": e.get("descend", "")} for e in events], "argv": argv})
+                                     "descend": e.get("descend", "")} for e in events if e["ev"] in lib.WALK_EVENTS], "argv": argv})
     res = lib.validate_traces(ctx, "Trace_Walker", recs, shards=8)
     res.update({"name": "Walker", "wall_s": round(time.time() - t0, 1)})
     return res
